@@ -124,7 +124,7 @@ reg("C17", ["c17_endpoints.c"], level="fault_enumeration",
     rule="'exact': every driver behaviour script of length <= 5 (quick) / <= 8 (thorough) over {1, 0, EINTR, EAGAIN, "
          "hard error} for octet-style and {1, 2, k=3, all asked, 0, EINTR, EAGAIN, hard error} for chunk-style "
          "drivers (after the script the driver moves everything asked), for N = 1..6, through source_get_chunk, "
-         "sink_put_chunk and both at-most variants; 'invalid': N = 0 and N > SSIZE_MAX; 'codes': every errno value 1..140 except EINTR/EAGAIN as a driver's hard error (first call and after one octet, exact and at-most calls, both styles); 'nothing': at-most transfers of zero octets and the aux functions with a "
+         "sink_put_chunk and both at-most variants; 'invalid': N = 0 and N > SSIZE_MAX; 'patience': 70000 idle answers (0/EINTR/EAGAIN) in a row, and 200000 octets in pieces of 1-3 with an idle answer before each, through counting drivers; 'codes': every errno value 1..140 except EINTR/EAGAIN as a driver's hard error (first call and after one octet, exact and at-most calls, both styles); 'nothing': at-most transfers of zero octets and the aux functions with a "
          "full auxiliary buffer (nothing may move, nothing may be written); 'plumb': every pair of "
          "source and sink scripts up to length 3 (thorough 4) over {1, 2, all, hard error} x N = 1..6 x stream "
          "longer/shorter than N x 4 driver-style combinations x sink error EIO/ENOMEM, through sts_cbc, sts_n_cbc, "
@@ -230,8 +230,11 @@ reg("C01", ["c01_typed.c"],
          "the area (register under test between a u16 and an s32 neighbour) is compared with the model. 'counts': "
          "tables with 0, 1, 2 and 7 registers in one or two areas: every handle from the register count upwards "
          "(count, count+1, 8, 16, 0xff, 0xffff, 2^16+count, 2^31, 2^32-1, ...) through register_set with a value of "
-         "every type, register_set_unsafe and register_get, storage compared after each. A signature "
+         "every type, register_set_unsafe and register_get, storage compared after each. Behind callbacks every 16th "
+         "acceptable value meets a device that refuses one word of the register (set must fail, nothing stored), and a "
+         "refused set must not have called the write callback. A signature "
          "is a configuration; evaluations counts values set.",
+    assumptions=["for a callback-backed area 'storage unchanged' is read as 'the write callback is not invoked': a refused set (C01), a refused block write (C02) and any block read (C03) must not write the device, not even words that are taken back afterwards"],
     exhaustive={"quick": "all values of 16-bit registers in every configuration",
                 "thorough": "all values of 16-bit registers in every configuration"})
 
@@ -337,7 +340,9 @@ reg("C08", ["c08_regp_emit.c"],
          "emission meets one sink call that is interrupted with EAGAIN / EINTR - an emission that reports failure then "
          "is not judged; the request frame handed to the response functions carries the instance's word size or the other "
          "one; allocators are of the generic or the slab type, alternately) "
-         "encoder and then received by a peer instance. A signature is a (unit, round); evaluations counts emissions.")
+         "encoder and then received by a peer instance. 'nested': a request issued from inside the sink driver when it "
+         "holds the last octet of the previous request (transmit-complete hook): two complete frames with successive "
+         "sequence numbers. A signature is a (unit, round); evaluations counts emissions.")
 
 reg("C07", ["c07_regp_corrupt.c"], level="fault_enumeration",
     rule="'mutate': corpus from the reference encoder (serial options): read requests, write requests and read "
